@@ -119,6 +119,19 @@ def run(rep):
         else:
             rep.mismatch(show_case(c), detail, dev="")
     rep.exhaustive = True
+    # methods the engine offers that the specification does not cover yet (reported, not judged)
+    names = ["at", "fill", "keys", "values", "entries", "flat", "flatMap", "findLast", "findLastIndex", "copyWithin", "toSorted", "toReversed",
+             "toSpliced", "with", "reduceRight", "lastIndexOf"]
+    tnames = ["fill", "slice", "map", "forEach", "indexOf", "reverse", "sort", "at", "byteLength", "byteOffset", "buffer", "BYTES_PER_ELEMENT"]
+    src = ("var __r = [], __n = %s, __t = %s, __i; var __ta = new Uint8Array(1);"
+           "for (__i = 0; __i < __n.length; __i = __i + 1) { if (typeof [][__n[__i]] !== 'undefined') { __r.push(__n[__i]); } }"
+           "for (__i = 0; __i < __t.length; __i = __i + 1) { if (typeof __ta[__t[__i]] !== 'undefined') { __r.push('TypedArray.' + __t[__i]); } }"
+           "__r.join(' ')") % (json.dumps(names), json.dumps(tnames))
+    pr = engine.run_cases(rep.pid, [{"id": 0, "src": src, "time_limit": 5.0}], procs=1, tag="eng_probe")
+    if pr and pr[0]["out"]["o"] == "value" and pr[0]["out"]["v"]["k"] == "str":
+        from harness import wire
+        offered = wire.from_units(pr[0]["out"]["v"]["u"]).split()
+        rep.notes["engine_members_outside_the_specification"] = [n for n in offered if n not in ("reduceRight", "lastIndexOf")]
     rep.notes["rule"] = ("distinct (method, receiver, arguments, responder table, number representation) tuples, typed-array scripts and "
                          "histories; every one is judged event by event")
     rep.notes["events_judged"] = rep.evaluations
